@@ -225,7 +225,9 @@ class BaseCarver(BaseDiscretizer):
         """
         # Checking for binary target and copying X
         x_copy = super()._prepare_data(X, y)
-        x_dev_copy = super()._prepare_data(X_dev, y_dev)
+        x_dev_copy = None
+        if X_dev is not None:
+            x_dev_copy = super()._prepare_data(X_dev, y_dev)
 
         # checking for not provided y
         assert y is not None, f" - [AutoCarver] y must be provided {y}"
